@@ -220,9 +220,13 @@ class SimSocket(socket.socket):
     def __init__(self, link):  # pylint: disable=super-init-not-called
         self._link = link
         self.sent = []
+        self.closed_by_app = False
 
     def recv(self, bufsize, flags=0):
         link = self._link
+        if self.closed_by_app:
+            link.log.append(("recv", bufsize, "closed-by-app", 0))
+            raise OSError(9, "Bad file descriptor")
         d = link._step("recv", bufsize)
         kind = d[0]
         if kind == "eof":
@@ -258,7 +262,8 @@ class SimSocket(socket.socket):
         return len(data)
 
     def close(self):
-        pass
+        # like a real socket: once the application (or the library on its behalf) closes it, recv fails
+        self.closed_by_app = True
 
     def fileno(self):
         return -1
